@@ -32,7 +32,7 @@ RULE = (
     "with consumer requests on / between / across several publications and exactly at the step position, for "
     "NextTime, PreviousTime, LinearTime and StepTime(step in {0,1/4,1/2,1,1/8,3/4,1/3,2/3,1/10,3/10}), scalar and "
     "small gridded payloads, plus a malformed stream (requests before the first / after the last publication, "
-    "pulls before any publication); a quarter of the cases give the adapter a memory limit (0 / 1.5 payloads / huge) "
+    "pulls before any publication); payload units m, degC, degF (offset units), K, dimensionless, mm/d; a quarter of the cases give the adapter a memory limit (0 / 1.5 payloads / huge) "
     "with one spill directory per worker process and are preceded by another coupling (other payloads) in the "
     "same process and directory; non-trivial = at least 3 publications, at least two "
     "successful pulls in at least two different publication intervals, one of them strictly between publications; "
@@ -55,6 +55,7 @@ GAPS = [1, 2, 3, 5, 7, 10, 1000, 999999, 10**6, 3600 * 10**6, DAY, DAY + 1, 10 *
 POW2_GAPS = [1, 2, 4, 8, 16, 1024, 2**20]
 STEPS = [[0, 1], [1, 4], [1, 2], [1, 1], [1, 8], [3, 4], [1, 3], [2, 3], [1, 10], [3, 10]]
 KINDS = ["next", "prev", "linear", "step"]
+UNITS = ["m", "m", "degC", "degC", "degF", "K", "", "mm/d"]
 SHAPES = [[], [], [], [2], [2, 2], [3, 1]]
 
 
@@ -139,7 +140,9 @@ def _gen_case(rng, malformed, kind=None):
         if pubs[0] <= r <= pubs[-1]:
             last_req = r if last_req is None else max(r, last_req)
     mem = rng.choice([0, "mid", "huge"]) if rng.random() < 0.25 else None
-    return {"kind": kind, "step": step, "shape": shape, "exact": exact, "mem": mem, "ops": ops}
+    # payload units incl. offset units (degC, degF): the interpolant is formed in the payload's own unit
+    units = rng.choice(UNITS)
+    return {"kind": kind, "step": step, "shape": shape, "exact": exact, "mem": mem, "units": units, "ops": ops}
 
 
 def _daily(vals):
@@ -147,6 +150,19 @@ def _daily(vals):
 
 
 CORPUS = [
+    # offset units: requests strictly inside a gap (seeded C11_e); expected = interpolant in the same unit
+    {"kind": "linear", "step": None, "shape": [], "exact": True, "mem": None, "units": "degC",
+     "ops": [["push", 0, [10.0]], ["push", 8, [20.0]], ["pull", 0], ["pull", 2], ["pull", 7], ["push", 24, [-4.0]],
+             ["pull", 8], ["pull", 12], ["pull", 23], ["pull", 24]]},
+    {"kind": "linear", "step": None, "shape": [2], "exact": False, "mem": 0, "units": "degF",
+     "ops": [["push", 0, [50.0, 32.0]], ["push", 3, [68.5, -40.0]], ["pull", 1], ["pull", 2], ["push", 10, [14.0, 212.0]],
+             ["pull", 3], ["pull", 7], ["pull", 10]]},
+    {"kind": "step", "step": [1, 4], "shape": [], "exact": False, "mem": None, "units": "degC",
+     "ops": [["push", 0, [10.0]], ["push", 8, [20.0]], ["pull", 1], ["pull", 2], ["pull", 3], ["pull", 8]]},
+    {"kind": "next", "step": None, "shape": [], "exact": False, "mem": None, "units": "degF",
+     "ops": [["push", 0, [10.0]], ["push", 8, [20.0]], ["pull", 0], ["pull", 5], ["pull", 8]]},
+    {"kind": "prev", "step": None, "shape": [], "exact": False, "mem": None, "units": "degC",
+     "ops": [["push", 0, [10.0]], ["push", 8, [20.0]], ["pull", 0], ["pull", 5], ["pull", 8]]},
     # buffer spilled to a directory shared with an earlier coupling of the same process (seeded C11_d)
     {"kind": "linear", "step": None, "shape": [2], "exact": True, "mem": 0,
      "ops": [["push", 0, [1.0, -1.0]], ["push", 8, [3.0, 0.5]], ["pull", 0], ["pull", 2], ["pull", 6], ["push", 16, [4.0, 8.5]],
@@ -252,8 +268,9 @@ def _run_link(case, ghost):
     set_memory(ada, case, n)
     out >> ada >> inp
     inp.ping()
-    out.push_info(fm.Info(time=t0, grid=grid, units="m"))
-    inp.exchange_info(fm.Info(time=t0, grid=grid, units="m"))
+    units = case.get("units", "m")
+    out.push_info(fm.Info(time=t0, grid=grid, units=units))
+    inp.exchange_info(fm.Info(time=t0, grid=grid, units=units))
     pulls = []
     try:
         for op in case["ops"]:
@@ -424,7 +441,8 @@ def distribution(cases, obss):
     exact = sum(1 for c in cases if c["exact"])
     nops = Counter(min(len(c["ops"]) // 10 * 10, 40) for c in cases)
     mems = Counter(str(c.get("mem")) for c in cases)
-    return {"kinds": dict(kinds), "step_positions": dict(steps), "payload_shapes": dict(shapes), "memory_limit": dict(mems),
+    units = Counter(c.get("units", "m") or "dimensionless" for c in cases)
+    return {"kinds": dict(kinds), "step_positions": dict(steps), "payload_shapes": dict(shapes), "memory_limit": dict(mems), "payload_units": dict(units),
             "pull_results": dict(res), "exact_dyadic_linear_cases": exact, "ops_per_case_bucket": dict(nops)}
 
 
